@@ -1,6 +1,7 @@
 import Driver.Parse
 import EchoVerif.Model.Cas
 import EchoVerif.Model.WscStore
+import EchoVerif.Model.WscExport
 
 /-! Line-protocol handlers for C20 (`C20.mem`, `C20.disk`, `C20.ret`).
     A line carries a blob dictionary `n (<bytes-hex> <hash64>)*`: the hash column is the real BLAKE3 digest
@@ -390,7 +391,151 @@ def wsc : P String := do
 
 end WscD
 
+/-! ### WAL causal-history export profiles (self-contained / CAS-addressed / reference-only) -/
+
+namespace ExpD
+open EchoVerif.Wsc EchoVerif.WscExp
+
+structure Side where
+  ms : List Material
+  rs : List Reading
+  ps : List Payload
+  refs : List CasRef
+
+def recP (d : Dict) : P Material := do
+  let digest ← href d; let coord ← id32; let kind ← num; let posture ← num
+  if kind = 0 ∨ kind > 7 then throw "bad kind"
+  if posture = 0 ∨ posture > 6 then throw "bad posture"
+  pure { digest, coord, kind, posture }
+
+def readingP : P Reading := do
+  let r ← WscD.reading
+  if r.posture = 0 ∨ r.posture > 6 then throw "bad posture"
+  pure r
+
+def payP (d : Dict) : P Payload := do
+  let material ← recP d
+  let bytes ← blobIx d
+  pure { material, bytes }
+
+def refP (d : Dict) : P CasRef := do
+  let kind ← num
+  if kind = 0 ∨ kind > 7 then throw "bad kind"
+  let contentHash ← href d; let coord ← id32; let byteLen ← num
+  pure { kind, contentHash, coord, byteLen }
+
+def sideP (d : Dict) : P Side := do
+  let ms ← counted (recP d)
+  let rs ← counted readingP
+  let ps ← counted (payP d)
+  let refs ← counted (refP d)
+  pure { ms, rs, ps, refs }
+
+def casP (d : Dict) : P (Hash × Bytes) := do
+  let h ← href d; let b ← blobIx d; pure (h, b)
+
+def scNodeDomain : Bytes := "echo:wsc_store:self_contained_retained_node:v1".toUTF8.toList ++ [0]
+
+def payErrS : PayErr → String
+  | .digestMismatch e b => s!"err digest-mismatch {id32Tok e} {(HExpr.h [.raw b]).render}"
+  | .missing d => s!"err missing {id32Tok d}"
+  | .extra d => s!"err extra {id32Tok d}"
+
+/-- `self_contained_retained_material_duplicate_id` (sc) / the coordinate itself (cas). -/
+def dupS (prof : String) (d : Nat) : String :=
+  if prof == "s" then
+    "err material-dup " ++ (HExpr.h [.raw scNodeDomain, .raw "duplicate".toUTF8.toList, .raw (natToBE 32 d)]).render
+  else "err material-dup " ++ id32Tok d
+
+def expErrS (prof : String) : ExpErr → String
+  | .materialDup d => dupS prof d
+  | .pay e => payErrS e
+  | .refsMismatch a b => s!"err refs-mismatch {a} {b}"
+  | .retentionConflict => "err retention-conflict"
+
+def impErrS (prof : String) : ImpErr → String
+  | .rootMismatch => "err root-mismatch"
+  | .materialDup d => dupS prof d
+  | .retentionConflict => "err retention-conflict"
+  | .pay e => payErrS e
+  | .refsMismatch a b => s!"err refs-mismatch {a} {b}"
+  | .missingBlob h c => s!"err missing-blob {id32Tok h} {id32Tok c}"
+  | .blobHashMismatch e b => s!"err blob-hash {id32Tok e} {(HExpr.h [.raw b]).render}"
+  | .blobLenMismatch e a => s!"err blob-len {e} {a}"
+
+def payS (p : Payload) : String := WscD.matS p.material ++ " " ++ bytesTok p.bytes
+def refS (r : CasRef) : String := s!" {r.kind} {id32Tok r.contentHash} {id32Tok r.coord} {r.byteLen}"
+
+def scImpS (prof : String) : Except ImpErr ScExport → String
+  | .ok i => s!"ok pay {i.payloads.length}" ++ String.join (i.payloads.map payS) ++ " " ++ WscD.recsS i.ms i.rs
+  | .error e => impErrS prof e
+def casImpS (prof : String) : Except ImpErr CasExport → String
+  | .ok i => s!"ok refs {i.refs.length}" ++ String.join (i.refs.map refS) ++ " " ++ WscD.recsS i.ms i.rs
+  | .error e => impErrS prof e
+def refImpS (prof : String) : Except ImpErr (List Material × List Reading) → String
+  | .ok i => "ok " ++ WscD.recsS i.1 i.2
+  | .error e => impErrS prof e
+
+def exp : P String := do
+  let prof ← tok
+  if prof != "s" && prof != "c" && prof != "r" then throw s!"bad profile {prof}"
+  let sr ← num
+  if sr > 1 then throw "bad same-root flag"
+  let sameRoot := sr == 1
+  let d ← dict
+  let e ← sideP d
+  let mode ← tok
+  let alt ← (if mode == "same" then pure none else if mode == "alt" then (do let a ← sideP d; pure (some a))
+    else throw s!"bad import mode {mode}")
+  let casL ← counted (casP d)
+  done
+  if (casL.map (·.1)).eraseDups.length != casL.length then throw "duplicate CAS key"
+  let H := mkH d
+  let cas : Nat → Option Bytes := fun h => (casL.find? (fun p => p.1 == h)).map (·.2)
+  if prof == "s" then
+    let ex := scExport H e.ms e.rs e.ps
+    let exS := match ex with
+      | .ok x => s!"ok {(scRetainedBasis x.payloads).render} {(basisDigest x.ms x.rs).render}"
+      | .error er => expErrS prof er
+    let imS := match alt, ex with
+      | none, .ok x => scImpS prof (scImport H sameRoot x)
+      | none, .error _ => "skipped"
+      | some a, _ =>
+        match canonPayloads a.ps, canonRecords a.ms a.rs with
+        | .ok _, some _ => scImpS prof (scImport H sameRoot { payloads := a.ps, ms := a.ms, rs := a.rs })
+        | _, _ => "unbuildable"
+    pure (exS ++ " ;; " ++ imS)
+  else if prof == "c" then
+    let ex := casExport e.ms e.rs e.refs
+    let exS := match ex with
+      | .ok x => s!"ok {(casRefBasis x.refs).render} {(basisDigest x.ms x.rs).render}"
+      | .error er => expErrS prof er
+    let imS := match alt, ex with
+      | none, .ok x => casImpS prof (casImport H cas sameRoot x)
+      | none, .error _ => "skipped"
+      | some a, _ =>
+        match canonRefs a.refs, canonRecords a.ms a.rs with
+        | .ok _, some _ => casImpS prof (casImport H cas sameRoot { refs := a.refs, ms := a.ms, rs := a.rs })
+        | _, _ => "unbuildable"
+    pure (exS ++ " ;; " ++ imS)
+  else
+    let ex := refExport e.ms e.rs
+    let exS := match ex with
+      | .ok x => s!"ok {(basisDigest x.1 x.2).render}"
+      | .error er => expErrS prof er
+    let imS := match alt, ex with
+      | none, .ok x => refImpS prof (refImport sameRoot x)
+      | none, .error _ => "skipped"
+      | some a, _ =>
+        match canonRecords a.ms a.rs with
+        | some _ => refImpS prof (refImport sameRoot (a.ms, a.rs))
+        | none => "unbuildable"
+    pure (exS ++ " ;; " ++ imS)
+
+end ExpD
+
 def handlers : List (String × (List String → String)) :=
-  [("C20.mem", runP mem), ("C20.disk", runP disk), ("C20.ret", runP ret), ("C20.wsc", runP WscD.wsc)]
+  [("C20.mem", runP mem), ("C20.disk", runP disk), ("C20.ret", runP ret), ("C20.wsc", runP WscD.wsc),
+   ("C20.exp", runP ExpD.exp)]
 
 end Driver.C20
